@@ -29,6 +29,7 @@ struct ReqFam {
     if (mode == 1) for (auto& c : cfg) c = static_cast<int>(r.pick({4, 4, 6, 8})) + 1000 * hra;    // mixed k (merge does not require equal k)
   }
   static int mixed_cfg(int cfg, int) { return cfg; }
+  static const double* mixed_cuts() { return nullptr; }
 };
 int ReqFam::forced_hra = -1;
 
@@ -42,7 +43,10 @@ static void sampled_cell_req(const c08::Cell& c, Rng& r) {
   const bool hra = c.cfg >= 1000;
   const std::string ctx = c08::cell_text("req", ReqFam::cfg_text(c.cfg), c);
   describe(ctx);
-  const std::string kp = std::string("req|sampled|") + (hra ? "hra|" : "lra|") + (c.merge == 0 ? "single-stream" : "merge-4way") + "|";
+  // k=4 (the minimum) has its own key class: there the number of sections can never grow (section size cannot shrink
+  // below MIN_K), so the error outgrows the n-independent published bounds -- a different defect than a bound failure at k >= 6
+  const std::string kp = (c.cfg % 1000) == 4 ? std::string("req|sampled|min-k-4|")
+                                             : std::string("req|sampled|") + (hra ? "hra|" : "lra|") + (c.merge == 0 ? "single-stream" : "merge-4way") + "|";
   c08::Truth t = c08::make_truth(c, r);
   // query points: 60 log-spaced towards the accurate end, 40 uniform
   std::vector<size_t> qs;
@@ -121,6 +125,7 @@ static void sampled_cell_req(const c08::Cell& c, Rng& r) {
   c08::mean_rank_test(kp, ctx, t, zq, zacc, floors, 6.5);
   count("req_smp_cells");
   count(hra ? "req_smp_cells_hra" : "req_smp_cells_lra");
+  if ((c.cfg % 1000) == 4) count("req_smp_cells_min_k");
   if (c.merge) count("req_smp_cells_merged");
   count(std::string("req_smp_cells_") + c08::order_name(c.order));
   count("req_smp_pairs", pairs);
@@ -143,7 +148,10 @@ static std::vector<c08::Cell> cells(bool T) {
     v.push_back(c08::Cell{k + 1000 * hra, n, order, merge, tr});
   v.push_back(c08::Cell{1012, 10000, 3, 0, tr});
   v.push_back(c08::Cell{12, 10000, 3, 1, tr});
-  if (T) { v.push_back(c08::Cell{1004, 100000, 1, 0, tr}); v.push_back(c08::Cell{4, 100000, 1, 1, tr}); v.push_back(c08::Cell{1200, 100000, 1, 1, 1000}); }
+  // smallest k
+  v.push_back(c08::Cell{1004, 10000, 1, 0, tr});
+  v.push_back(c08::Cell{4, 10000, 1, 1, tr});
+  if (T) { v.push_back(c08::Cell{1004, 100000, 1, 0, tr}); v.push_back(c08::Cell{4, 100000, 1, 1, tr}); v.push_back(c08::Cell{1200, 100000, 1, 1, 1000}); v.push_back(c08::Cell{1006, 100000, 1, 0, tr}); }
   return v;
 }
 uint64_t num_cases(bool thorough) { return static_cast<uint64_t>(thorough ? NEXH_T : NEXH_Q) + cells(thorough).size(); }
